@@ -72,6 +72,8 @@ class Algebra:
     r: int = 0
     d: int = field(init=False, repr=False, compare=False)  # Total number of dimensions
     signature: np.ndarray = field(default=None, compare=False)
+    # Hashable copy of the signature, so that algebras which differ in the order of the signature compare unequal.
+    _signature_tuple: tuple = field(init=False, repr=False, default=())
     start_index: int = field(default=None, repr=False, compare=False)
     basis: List[str] = field(repr=False, default_factory=list)
 
@@ -147,6 +149,7 @@ class Algebra:
         if self.start_index is None:
             self.start_index = 0 if self.r == 1 else 1
 
+        self._signature_tuple = tuple(int(s) for s in self.signature)
         self.d = self.p + self.q + self.r
 
         # Setup mapping from binary to canonical string rep and vise versa
